@@ -7,7 +7,7 @@ CONSTANTS
   MaxDisc = 1
   MaxSubs = 1
   Sequential = FALSE
-  Abandons = FALSE
+  Abandons = TRUE
   Timeouts = TRUE
   Limits <- NoLimits
   Affs <- NoAffs
